@@ -62,6 +62,10 @@ extern uint64_t sim_step_budget;          // 0 = unlimited
 void steps_begin(uint64_t budget);
 uint64_t steps_end();
 
+// ---- environment seam (sim/seams/envseam.cc): libc PRNG routed to a simulator stream
+void env_reseed(uint64_t seed);
+uint64_t env_draws();
+
 // ---- stack scrub (2.2: uncontrolled residue is nondeterminism) ------------
 void scrub_stack();
 
